@@ -245,54 +245,63 @@ Fixpoint inner (fuel : nat) (x s : list F) (passive : list bool) : option (list 
 Definition negmask (m : list bool) : list bool := map negb m.
 
 (* state: x_vec, x_gradient, passive_set, active_set (kept separately, as in the code: the try block
-   updates both, the inner loop recomputes both from x_vec) *)
-Fixpoint as_loop (fuel : nat) (iter0 : bool) (x g : list F) (passive active : list bool) : option (list F) :=
-  match fuel with
-  | O => Some x
-  | S f =>
-    let add_idx := negb iter0 || forallb is0 x in
-    let passive1 := if add_idx then set_nth (argmax g) true passive else passive in
-    let active1 := if add_idx then set_nth (argmax g) false active else active in
-    (* try: solve on the passive block; except: restart from zeros *)
-    let attempt :=
-      match solve_scatter passive1 with
-      | Some s => Some (x, s, passive1, active1)
-      | None =>
-        let x0 := map (fun _ => f0 Op) x in
-        let p0 := posmask x0 in let a0 := negmask p0 in
-        let p1 := if anyb a0 then set_nth (argmax g) true p0 else p0 in
-        let a1 := if anyb a0 then set_nth (argmax g) false a0 else a0 in
-        match solve_scatter p1 with Some s => Some (x0, s, p1, a1) | None => None end
-      end in
-    match attempt with
-    | None => None
-    | Some (x1, s1, p1, a1) =>
-      match vmin' (select p1 s1) with
-      | None => None   (* tl.min of an empty selection raises *)
-      | Some mn =>
-        let r := if fleb Op mn (f0 Op) then
-                   match inner (length p1) x1 s1 p1 with
-                   | Some (x2, s2, p2) => Some (s2, p2, negmask p2)   (* active_set = x_vec <= 0 *)
-                   | None => None end
-                 else Some (s1, p1, a1) in
-        match r with
-        | None => None
-        | Some (s2, p2, a2) =>
-          let x3 := map (fmax Op (f0 Op)) s2 in
-          let g3 := gradient x3 in
-          if negb (anyb a2) then Some x3
-          else match vmin' (map (fopp Op) (select a2 g3)) with   (* max(g[active]) = - min(-g[active]) *)
-               | Some nm => if fleb Op (fopp Op nm) tol then Some x3 else as_loop f false x3 g3 p2 a2
-               | None => Some x3
-               end
-        end
-      end
+   updates both, the inner loop recomputes both from x_vec).
+   as_body: one iteration of the outer loop up to `x_vec = clip(support_vec, 0)`: returns the support vector and
+   the two masks, None when a Python exception escapes. *)
+Definition as_body (iter0 : bool) (x g : list F) (passive active : list bool) : option (list F * list bool * list bool) :=
+  let add_idx := negb iter0 || forallb is0 x in
+  let passive1 := if add_idx then set_nth (argmax g) true passive else passive in
+  let active1 := if add_idx then set_nth (argmax g) false active else active in
+  (* try: solve on the passive block; except: restart from zeros *)
+  let attempt :=
+    match solve_scatter passive1 with
+    | Some s => Some (x, s, passive1, active1)
+    | None =>
+      let x0 := map (fun _ => f0 Op) x in
+      let p0 := posmask x0 in let a0 := negmask p0 in
+      let p1 := if anyb a0 then set_nth (argmax g) true p0 else p0 in
+      let a1 := if anyb a0 then set_nth (argmax g) false a0 else a0 in
+      match solve_scatter p1 with Some s => Some (x0, s, p1, a1) | None => None end
+    end in
+  match attempt with
+  | None => None
+  | Some (x1, s1, p1, a1) =>
+    match vmin' (select p1 s1) with
+    | None => None   (* tl.min of an empty selection raises *)
+    | Some mn =>
+      if fleb Op mn (f0 Op) then
+        match inner (length p1) x1 s1 p1 with
+        | Some (x2, s2, p2) => Some (s2, p2, negmask p2)   (* active_set = x_vec <= 0 *)
+        | None => None end
+      else Some (s1, p1, a1)
     end
   end.
 
-Definition active_set_nnls (x0 : option (list F)) (n_iter_max : nat) : option (list F) :=
+(* `if tl.any(active_set) != True or tl.max(x_gradient[active_set]) <= tol: break`  (max = - min of the opposites) *)
+Definition as_done (active : list bool) (g : list F) : bool :=
+  negb (anyb active) ||
+  match vmin' (map (fopp Op) (select active g)) with Some nm => fleb Op (fopp Op nm) tol | None => true end.
+
+(* the outer loop; the flag tells whether the loop was left through the termination test (true) or because
+   n_iter_max ran out (false) *)
+Fixpoint as_loop (fuel : nat) (iter0 : bool) (x g : list F) (passive active : list bool) : option (list F * bool) :=
+  match fuel with
+  | O => Some (x, false)
+  | S f =>
+    match as_body iter0 x g passive active with
+    | None => None
+    | Some (s2, p2, a2) =>
+      let x3 := map (fmax Op (f0 Op)) s2 in
+      let g3 := gradient x3 in
+      if as_done a2 g3 then Some (x3, true) else as_loop f false x3 g3 p2 a2
+    end
+  end.
+
+Definition active_set_run (x0 : option (list F)) (n_iter_max : nat) : option (list F * bool) :=
   let x := match x0 with Some x => x | None => map (fun _ => f0 Op) (nth 0 UtU []) end in
   as_loop n_iter_max true x (gradient x) (posmask x) (negmask (posmask x)).
+Definition active_set_nnls (x0 : option (list F)) (n_iter_max : nat) : option (list F) :=
+  match active_set_run x0 n_iter_max with Some (x, _) => Some x | None => None end.
 End ActiveSet.
 
 (* exact Gaussian elimination with the first non-zero pivot: the executed instance of `solve`
